@@ -1,6 +1,6 @@
 //! C31 — persisted queries execute only the document registered under the hash.
 //!
-//! Case   (pq (store map | lru CAP) (texts T…) (reqs R…))
+//! Case   (pq (store map | lru CAP | small CAP) (texts T…) (reqs R…))
 //!   T = (t "query text" "sha256 hex of the text" (sig "S") | (noparse))
 //!         S identifies the parsed document: the response keys of its fields joined by ","
 //!         ("!name" for a field the schema does not have: such a document parses, is stored, and
@@ -12,7 +12,8 @@
 //!         FLAG = pre   (the caller parsed the query ahead of time: `Request::parsed_query()`)
 //!   One case is one history against ONE schema with the ApolloPersistedQueries extension over a
 //!   fresh store: `map` = the harness' exact HashMap CacheStorage, `lru` = the crate's
-//!   LruCacheStorage::new(CAP).  Requests are decoded from JSON like an HTTP body.
+//!   LruCacheStorage::new(CAP), `small` = a harness store that keeps only the CAP most recently
+//!   used entries (LruCacheStorage rounds its capacity up and never evicts in short histories).  Requests are decoded from JSON like an HTTP body.
 //! Output (outs (o OUTCOME STORE)…)   one per request
 //!   OUTCOME = (exec "S") | (err notfound|mismatch|invalid|parse) | (err version V) | (err other "msg")
 //!   STORE   = (st X…)  map store only: for every text, in order, what the store holds under its
@@ -50,6 +51,27 @@ impl CacheStorage for MapStore {
     }
     async fn set(&self, key: String, query: ExecutableDocument) {
         self.0.lock().unwrap().insert(key, query);
+    }
+}
+
+/// a bounded store that really forgets: keeps the CAP most recently set/got entries
+#[derive(Clone)]
+struct SmallStore(Arc<Mutex<Vec<(String, ExecutableDocument)>>>, usize);
+
+#[async_trait::async_trait]
+impl CacheStorage for SmallStore {
+    async fn get(&self, key: String) -> Option<ExecutableDocument> {
+        let mut v = self.0.lock().unwrap();
+        let i = v.iter().position(|(k, _)| *k == key)?;
+        let e = v.remove(i);
+        v.insert(0, e);
+        Some(v[0].1.clone())
+    }
+    async fn set(&self, key: String, query: ExecutableDocument) {
+        let mut v = self.0.lock().unwrap();
+        v.retain(|(k, _)| *k != key);
+        v.insert(0, (key, query));
+        v.truncate(self.1);
     }
 }
 
@@ -174,7 +196,11 @@ fn run(case: &Sexp, dist: &mut Dist) -> Sexp {
     let builder = Schema::build(Query, EmptyMutation, EmptySubscription);
     let schema = if store_kind == "map" {
         builder.extension(ApolloPersistedQueries::new(map.clone())).finish()
+    } else if store_kind == "small" {
+        let cap = a[0].args()[1].as_usize().expect("cap");
+        builder.extension(ApolloPersistedQueries::new(SmallStore(Default::default(), cap))).finish()
     } else {
+        assert_eq!(store_kind, "lru", "bad store kind");
         let cap = a[0].args()[1].as_usize().expect("cap");
         builder.extension(ApolloPersistedQueries::new(LruCacheStorage::new(cap))).finish()
     };
@@ -275,9 +301,12 @@ fn gen_text(rng: &mut Rng, uniq: &mut usize, dist: &mut Dist) -> String {
 }
 
 fn gen_case(rng: &mut Rng, i: usize, o: &Opts, dist: &mut Dist) -> Sexp {
-    let store = if rng.chance(1, 2) {
+    let store = if rng.chance(2, 5) {
         dist.hit("store_map");
         node("store", vec![atom("map")])
+    } else if rng.chance(1, 3) {
+        dist.hit("store_small");
+        node("store", vec![atom("small"), num(rng.range(1, 2))])
     } else {
         dist.hit("store_lru");
         node("store", vec![atom("lru"), num(rng.range(1, 2))])
